@@ -32,12 +32,57 @@ class ScriptSock:
         self.pos += k
         return b
 
-    def sendall(self, b):
+    def sendall(self, b, *flags):
         self.out += b
 
 
-def frame_bytes(msgs):
-    s = ScriptSock()
+class ShortWriteSock(ScriptSock):
+    """a socket whose send() / sendmsg() accept at most 5 bytes per call and say so (what a full send buffer, a signal or a time-out make of a real one);
+    sendall() writes everything, as the real one does"""
+    def send(self, b):
+        k = min(len(b), 5)
+        self.out += bytes(b[:k])
+        return k
+
+    def sendmsg(self, buffers, *rest):
+        data = b''.join(bytes(x) for x in buffers)
+        k = min(len(data), 5)
+        self.out += data[:k]
+        return k
+
+
+class Interrupted(BaseException):
+    """stands for an asynchronous exception (a graceful terminate) surfacing in the sending thread"""
+
+
+class SecondCallInterrupted(ScriptSock):
+    """the first socket call of a message goes through; if the sender comes back for a second one, the asynchronous exception lands first (between two
+    statements of send_msg, where the interpreter delivers it)"""
+    calls = 0
+
+    def _call(self):
+        self.calls += 1
+        if self.calls > 1:
+            raise Interrupted()
+
+    def sendall(self, b, *flags):
+        self._call()
+        self.out += bytes(b)
+
+    def send(self, b, *flags):
+        self._call()
+        self.out += bytes(b)
+        return len(b)
+
+    def sendmsg(self, buffers, *rest):
+        self._call()
+        data = b''.join(bytes(x) for x in buffers)
+        self.out += data
+        return len(data)
+
+
+def frame_bytes(msgs, cls=ScriptSock):
+    s = cls()
     for m in msgs:
         send_msg(s, m)
     return s.out
@@ -71,6 +116,47 @@ def run_recv(data, sizes, count, timeout=3.0):
 
 def judge(msgs, sizes, trunc):
     data = frame_bytes(msgs)
+    # the sender side: whatever primitive send_msg uses, every byte of every message is on the wire when it returns - also over a socket whose
+    # send()/sendmsg() write short
+    # failure classification: ANY failure of the socket while sending is reported as ConnectionClosedError (what the server's accept loop, the context
+    # helper and the workers' clean-up paths are prepared for) - also errors that are not ConnectionError subclasses, e.g. EBADF on a socket another
+    # thread has just closed
+    import errno
+    for err in (OSError(errno.EBADF, 'Bad file descriptor'), BrokenPipeError(), ConnectionResetError(), TimeoutError('timed out')):
+        class FailingSock(ScriptSock):
+            def sendall(self, b, *flags):
+                raise err
+            send = sendall
+
+            def sendmsg(self, buffers, *rest):
+                raise err
+        try:
+            send_msg(FailingSock(), msgs[0])
+            return True, {'received': [], 'error': f'send_msg returned normally although the socket raised {err!r}', 'hung': False, 'pos': 0}
+        except ConnectionClosedError:
+            pass
+        except BaseException as e:     # noqa
+            return True, {'received': [], 'error': f'send_msg let {type(e).__name__}({e}) escape when the socket failed with {err!r}; every socket failure must surface as '
+                                                   f'ConnectionClosedError', 'hung': False, 'pos': 0}
+    # atomicity: a terminate landing inside send_msg leaves whole frames only on the wire (a message is handed over by ONE socket call)
+    s = SecondCallInterrupted()
+    sent_whole = 0
+    try:
+        for m in msgs:
+            s.calls = 0
+            send_msg(s, m)
+            sent_whole += 1
+    except Interrupted:
+        pass
+    boundary = len(frame_bytes(msgs[:sent_whole]))
+    if len(s.out) != boundary:
+        return True, {'received': [], 'error': f'send_msg needs more than one socket call per message: a terminate landing between them (after message {sent_whole}) leaves '
+                                               f'{len(s.out) - boundary} bytes of a frame on the wire - a stump the peer takes for the start of the next message',
+                      'hung': False, 'pos': 0}
+    short = frame_bytes(msgs, ShortWriteSock)
+    if short != data:
+        return True, {'received': [], 'error': f'send_msg over a socket whose send()/sendmsg() accept 5 bytes per call put {len(short)} bytes on the wire and returned '
+                                               f'normally; the messages take {len(data)} bytes', 'hung': False, 'pos': 0}
     # framing as the property states it: 4-byte big-endian length + body per message
     if trunc is None:
         r = run_recv(data, sizes, len(msgs))
